@@ -258,6 +258,7 @@ func c11Eval(c c11Case) (ok bool, sig, detail string) {
 				return false, "unrepeatable:" + st.Op, fmt.Sprintf("shape %s, step %d %s: calling again on the same arguments gives a different result: 1st %s ;; 2nd %s", c.Shape, k, st.Op, a, b)
 			}
 		}
+		engine.Outcome(c11Snap(res))
 		heap = append(heap, res)
 		snaps = append(snaps, c11Snap(res))
 	}
